@@ -226,6 +226,18 @@ Definition lift_path {A} (e : exec) (r : pres A) (k : A -> mres) : mres :=
 
 (* ---- Execution::schedule ---- *)
 
+(* the inner loop over the dependent accesses of one pending operation *)
+Fixpoint dpor_accesses (accs : list access) (dv : vv) (id : nat) (p : path) : pres path :=
+  match accs with
+  | [] => POk p
+  | acc :: rest =>
+      if access_hb acc dv then dpor_accesses rest dv id p
+      else match backtrack p (a_path_id acc) id with
+           | POk p' => dpor_accesses rest dv id p'
+           | PErr x => PErr x
+           end
+  end.
+
 (* the DPOR loop: for every thread with a pending operation *)
 Fixpoint dpor_loop (objs : list object) (ths : list (nat * thread)) (p : path) : pres path :=
   match ths with
@@ -237,15 +249,13 @@ Fixpoint dpor_loop (objs : list object) (ths : list (nat * thread)) (p : path) :
           match nth_error objs (op_obj op) with
           | None => PErr (PInternal 20)
           | Some o =>
-              match last_dependent_access o (op_act op) with
+              match last_dependent_accesses o (op_act op) with
               | None => PErr (PInternal 21)            (* not branchable *)
-              | Some None => dpor_loop objs rest p
-              | Some (Some acc) =>
-                  if access_hb acc (t_dpor th) then dpor_loop objs rest p
-                  else match backtrack p (a_path_id acc) id with
-                       | POk p' => dpor_loop objs rest p'
-                       | PErr x => PErr x
-                       end
+              | Some accs =>
+                  match dpor_accesses accs (t_dpor th) id p with
+                  | POk p' => dpor_loop objs rest p'
+                  | PErr x => PErr x
+                  end
               end
           end
       end
@@ -317,13 +327,13 @@ Definition schedule (e : exec) : mres * bool :=
         match nth_error (e_objects e) (op_obj op) with
         | None => e
         | Some o =>
-            let dv := match last_dependent_access o (op_act op) with
-                      | Some (Some acc) => vv_join (t_dpor nth_) (a_vv acc)
-                      | _ => t_dpor nth_
+            let dv := match last_dependent_accesses o (op_act op) with
+                      | Some accs => fold_left (fun d acc => vv_join d (a_vv acc)) accs (t_dpor nth_)
+                      | None => t_dpor nth_
                       end in
             let dv := vv_inc dv nx in
             let e := upd_thread e nx (fun t => th_set_dpor t dv) in
-            upd_object e (op_obj op) (fun o => set_last_access o (op_act op) path_id dv)
+            upd_object e (op_obj op) (fun o => set_last_access o (op_act op) nx path_id dv)
         end
     end in
   let e := ex_set_threads e
